@@ -367,13 +367,13 @@ def conds(tier):
         xh.Cond(M, "c04_ctor", t(300, 2400), path_timeout=60, kind=sb, examples=["n=2, k=1, t0=3, t1=0, flavour=0, nsdepth=1", "n=3, k=2, t0=4, t1=0, flavour=1, nsdepth=0"],
                 bounds="0-3 args x every default count x %d first-argument types (2nd/3rd derived) x class template on/off%s" % (NPOOL, " x namespace depth 0-2" if not q else "; namespace depth derived")),
         xh.Cond(M, "c04_method", t(300, 2400), path_timeout=60, kind=sb, examples=["n=2, k=1, t0=2, t1=0, r=3, flavour=0", "n=1, k=0, t0=5, t1=0, r=5, flavour=2"],
-                bounds="0-3 args x every default count x %d first-argument types (2nd/3rd derived) x plain / class template / member template%s" % (NPOOL, " x %d return shapes" % NRET if not q else "; return shape derived")),
+                bounds="0-3 args x every default count x %d first-argument types (2nd/3rd derived) x plain / class template / member template%s" % (NPOOL, " x 4 return-shape offsets" if not q else "; return shape derived")),
         xh.Cond(M, "c04_method_shapes", t(300, 1200), path_timeout=60, kind=sb, examples=["n=1, r=5, nc=1, flavour=1, nsdepth=2"],
                 bounds="0-1 args x %d return shapes x const/non-const x 3 template flavours x namespace depth 0-2" % NRET),
         xh.Cond(M, "c04_static", t(300, 2400), path_timeout=60, kind=sb, examples=["n=2, k=2, t0=0, t1=0, r=4, flavour=0", "n=1, k=0, t0=3, t1=0, r=3, flavour=1"],
                 bounds="as c04_method for static methods"),
         xh.Cond(M, "c04_function", t(300, 2400), path_timeout=60, kind=sb, examples=["n=2, k=1, t0=1, t1=0, r=2, flavour=0, nsdepth=0", "n=1, k=0, t0=3, t1=0, r=3, flavour=1, nsdepth=2"],
-                bounds="as c04_method for free functions, namespace depth 0-2 (global scope included)"),
+                bounds="as c04_method for free functions (2 return-shape offsets in thorough), namespace depth 0-2 (global scope included%s)" % ("" if not q else "; derived")),
         xh.Cond(M, "c04_class", t(300, 1500), path_timeout=60, kind=sb, examples=["base=1, nprops=2, nenums=1, virt=0, tmpl=0, ops=1, nsdepth=1", "base=3, nprops=3, nenums=2, virt=1, tmpl=1, ops=2, nsdepth=2"],
                 bounds="4 base forms x 0-3 properties x 0-2 class enums x class template x 3 operator sets%s" % (" x virtual x namespace depth 0-2" if not q else "; virtual / namespace depth derived")),
         xh.Cond(M, "c04_argname", t(120, 600), examples=["name='pose'"], bounds="all argument names of length <= 6"),
